@@ -236,11 +236,12 @@ class CollisionMachine(Machine):
         # what the solver's installed array was built from
         self.installed: dict | None = None
 
-    def _grid(self, N: int) -> Any:
+    def _grid(self, N: int, T: float | None = None) -> Any:
         c = self.cfg
+        T = c["T"] if T is None else T
         if c["grid"] == "Grid":
-            return self.WallGo.Grid(c["M"], N, 1.3, c["T"])
-        return self.WallGo.Grid3Scales(c["M"], N, 3.0, 4.0, 1.3, c["T"], 0.5, 0.1, 0.2)
+            return self.WallGo.Grid(c["M"], N, 1.3, T)
+        return self.WallGo.Grid3Scales(c["M"], N, 3.0, 4.0, 1.3, T, 0.5, 0.1, 0.2)
 
     def _newSolver(self, N: int, basis: str) -> Any:
         solver = self.WallGo.BoltzmannSolver(self._grid(N), "Cardinal", basis, "Spectral")
@@ -257,17 +258,26 @@ class CollisionMachine(Machine):
     def _writeFile(self, item: dict) -> None:
         pair = (item["a"], item["b"])
         arr = pairArray(item["gen"], item["a"], item["b"], item["N"], self.seedBase)
+        if item.get("dtype", "float64") != "float64":
+            # a legal but unusual file: single precision (what is stored is then
+            # the rounded numbers, and those are what must come back)
+            arr = arr.astype(item["dtype"])
+            self.ctx.probes["file_with_other_dtype"] += 1
         path = self._path(pair)
         with self.h5py.File(str(path), "w") as fh:
             meta = fh.create_group("metadata")
-            meta.attrs["Basis Size"] = item["N"]
+            # the generator is C++: the integer type of the attribute is whatever its
+            # HDF5 layer chose, so every integer type is a legal file
+            sizeType = {"int": int, "int32": np.int32, "uint32": np.uint32,
+                        "uint64": np.uint64}[item.get("sizeType", "int")]
+            meta.attrs["Basis Size"] = sizeType(item["N"])
             meta.attrs["Basis Type"] = np.bytes_(item["basis"])
             fh.create_dataset(f"{item['a']}, {item['b']}", data=arr)
         old = self.disk.get(pair)
         if self.inLoad:
             self.overwrittenDuringLoad.setdefault(pair, old)
         self.disk[pair] = {"state": "ok", "gen": item["gen"], "N": item["N"],
-                           "basis": item["basis"], "arr": arr}
+                           "basis": item["basis"], "arr": np.asarray(arr, dtype=np.float64)}
 
     def _advanceWriter(self, k: int) -> int:
         done = 0
@@ -320,7 +330,13 @@ class CollisionMachine(Machine):
             rng.shuffle(order)
             usable = [n for n in sizes if n >= self.solverN]
             N = rng.choice(usable) if usable and rng.random() < 0.75 else rng.choice(sizes)
-            return {"op": op, "N": N, "basis": rng.choice(BASES), "order": order}
+            step = {"op": op, "N": N, "basis": rng.choice(BASES), "order": order}
+            if rng.random() < 0.25:
+                step["dtypes"] = [rng.choice(["float64", "float64", "float32"])
+                                  for _ in self.pairs]
+            if rng.random() < 0.3:
+                step["sizeType"] = rng.choice(["int32", "uint32", "uint64"])
+            return step
         if op == "writer_step":
             return {"op": op, "k": rng.choice([1, 1, 2, 4])}
         if op in ("writer_finish", "load_solver"):
@@ -343,7 +359,10 @@ class CollisionMachine(Machine):
             return {"op": op, "basis": rng.choice(BASES)}
         if op == "interpolate":
             smaller = [n for n in SIZES if self.installed and n < self.installed["N"]]
-            return {"op": op, "N": rng.choice(smaller or SIZES)}
+            # the collision array lives in compact momentum coordinates: the target
+            # grid's momentum scale must not matter
+            return {"op": op, "N": rng.choice(smaller or SIZES),
+                    "T": rng.choice([None, None, 0.5, 1.2, 120.0])}
         if op == "new_solver":
             return {"op": op, "N": rng.choice(SIZES), "basis": rng.choice(BASES)}
         if op == "update_particles":
@@ -384,8 +403,12 @@ class CollisionMachine(Machine):
         if self.queue:
             self.ctx.probes["generation_abandoned_midway"] += 1
         self.gen += 1
+        dtypes = step.get("dtypes") or ["float64"] * len(self.pairs)
         self.queue = [{"a": self.pairs[i][0], "b": self.pairs[i][1], "N": int(step["N"]),
-                       "basis": step["basis"], "gen": self.gen} for i in step["order"]]
+                       "basis": step["basis"], "gen": self.gen,
+                       "dtype": dtypes[i] if i < len(dtypes) else "float64",
+                       "sizeType": step.get("sizeType", "int")}
+                      for i in step["order"]]
         return ["generation", self.gen]
 
     def _op_writer_step(self, step: dict) -> Any:
@@ -732,7 +755,10 @@ class CollisionMachine(Machine):
             raise Skip()  # the property speaks of a SMALLER grid only
         digestBefore = self._contentDigest(arr)
         try:
-            small = self.WallGo.CollisionArray.interpolateCollisionArray(arr, self._grid(NS))
+            small = self.WallGo.CollisionArray.interpolateCollisionArray(
+                arr, self._grid(NS, step.get("T")))
+            if step.get("T") is not None:
+                self.ctx.probes["interpolate_to_other_momentum_scale"] += 1
         except Exception as exc:  # pylint: disable=broad-except
             raise Violation("interpolate-raised", type(exc).__name__,
                             f"interpolateCollisionArray to N={NS} raised "
